@@ -154,6 +154,34 @@ M = {
  "C14-w5m2": ("the expression is expanded before the allowed list is checked", "a refused call (empty / invalid list) on an AND of >= 17 OR groups"),
  "C15-w5m1": ("one scanner stream reused for all allowed entries; 'removed' is not reset", "an entry with an unknown id behind an entry whose -or-later was rewritten"),
  "C15-w5m2": ("strings.Trim instead of TrimPrefix strips a '+' at the very end of the expression", "a rewritten id, the caller's string ending in '+', an unknown id in between"),
+ "C01-w6m1": ("PR: above 4096 alternatives Satisfies streams them through an odometer whose buffer is sized from the first alternative of each operand", "> 4096 alternatives and an ANDed operand like (X OR (Y AND Z)) whose later alternative is longer: trailing terms are never checked"),
+ "C01-w6m2": ("PR: range index keyed by a family NAME derived from the first id (text before the first digit)", "MPL-2.0-no-copyleft-exception (a one-member family) filed under MPL: matched by / matches MPL-1.x"),
+ "C02-w6m1": ("PR: terms interned as integer keys (licOrd*len(exceptions)+excOrd)*2+plus, radix one too small; equality tested before the exception check", "A WITH <last exception of the list> against the id that follows A in GetLicenses() order"),
+ "C02-w6m2": ("PR: lower-case operators accepted by upper-casing \\b(and|or|with)\\b in the text before scanning", "reference names with and / or / with as a whole segment (LicenseRef-MIT-or-Apache): case variants match, Extract re-cases"),
+ "C03-w6m1": ("PR: retired ids match their replacements via a table split at ' WITH '; replacement[1] read for plain renames", "StandardML-NJ (and 4 more) against its successor WITH an exception: index out of range"),
+ "C03-w6m2": ("PR: id index with a 64-byte stack buffer holding the word plus '-or-later'; only len(id) > 64 guarded", "an unknown word of 56-64 bytes directly followed by '+'"),
+ "C04-w6m1": ("PR: scanner without regexps, normalizeLicense as one suffix switch; the X+ probe moved inside the deprecated branch", "GFDL-1.x-(no-)invariants+ : valid before, unknown now (every entry point)"),
+ "C04-w6m2": ("PR: parseExpression / parseAnd unified by precedence climbing; the operator is found by token VALUE only", "MIT LicenseRef-OR ISC: accepted as MIT OR ISC by every entry point"),
+ "C05-w6m1": ("PR: ValidateLicenses validates lists of >= 256 entries in per-core chunks; the chunk bounds use the same remainder shift for lo and hi", "an invalid entry at one of the few skipped indexes of a list whose length is no multiple of the worker count"),
+ "C05-w6m2": ("PR: id lists indexed by a fixed [36]byte key; longer inputs are truncated by copy", "a listed 36-byte id followed by more id characters"),
+ "C07-w6m1": ("PR: allowed list grouped by family as windows into the sorted slice; a split family is re-joined with append into spare capacity", "two members of a family and a non-member sorting between them: the in-between entry is overwritten"),
+ "C07-w6m2": ("PR: exception buckets filled with &entry of a range variable (go 1.21 semantics)", "a licence WITH e covered only through another id WITH e that is not the last entry of the sorted list"),
+ "C08-w6m1": ("PR: ids resolved before a following '+' is handled", "GFDL-1.x-(no-)invariants+ becomes unknown while -or-later stays valid"),
+ "C08-w6m2": ("PR: allowed list indexed per family, each family cut from the sorted list as one run", "GFDL-1.1 | GFDL-1.1-invariants-only | GFDL-1.1-only: the deprecated spelling lands in the lost run"),
+ "C09-w6m1": ("PR: typed id folded once into a scratch key; the '+' look-ahead appends -or-later to the key and does not cut it back", "ecos-2.0+ / apache-2.0-or-later+ in non-canonical case"),
+ "C09-w6m2": ("PR: tables built once (sync.OnceValue); getters return shared slices", "a caller lower-cases a getter's result: ExtractLicenses then reports lower case"),
+ "C10-w6m1": ("PR: alternatives as uint64 bit sets; the 'table full' guard is > 64 instead of >=", "exactly 65 distinct terms: the 65th is not required (AND) / always satisfied (OR), depending on the order written"),
+ "C10-w6m2": ("PR: repeated operands of a chain skipped by a key = top operator + sorted multiset of ALL leaves", "sibling operands with the same leaves in another nesting"),
+ "C11-w6m1": ("PR: lists of > 8 entries searched by sort.Search and widened to same-family neighbours", "> 8 entries, a look-alike id sorting between the expression licence and the only matching version"),
+ "C11-w6m2": ("PR: reusable AllowList keeps only the lowest '+' entry per family", "two '+' entries of one family that differ in their exception"),
+ "C12-w6m1": ("PR: one lower-cased id index; the '+' / -or-later branches build a LICENCE token by hand", "an exception id with -or-later outside WITH is accepted as a licence"),
+ "C12-w6m2": ("PR: deprecated combined ids expanded to 'L-only WITH e'; spelledOut computed before the optional '+' is consumed", "GPL-2.0-with-GCC-exception+ WITH Classpath-exception-2.0 rejected"),
+ "C13-w6m1": ("PR: shared prebuilt leaf nodes copied on write; the WITH branch copies only if the '+' branch did not", "GPL-2.0-or-later+ WITH e writes the exception into the shared table entry for the rest of the process"),
+ "C13-w6m2": ("PR: deprecated ids on the allowed list also allow their successor: append(allowedList, successor)", "a caller's slice with spare capacity: the successor is written behind len"),
+ "C14-w6m1": ("PR: Options{MaxAlternatives}; the estimator evaluates the left operand's count twice per AND", "AND groups nested to the left >= 28 deep"),
+ "C14-w6m2": ("PR: lazy streaming Satisfies; an early-out probes the lazy left sequence and then runs it again", "alternating OR / AND nested to the left >= 50 deep, all licences allowed"),
+ "C15-w6m1": ("PR: one interned id index; in the -or-later branch 'base is active or exception' became 'entry != nil' (also deprecated-only)", "eCos-2.0-or-later: buffer rewritten before the lookup fails, offset 8 too large"),
+ "C15-w6m2": ("PR: operators and suffixes accepted in any letter case; the retry assigns the folded word to the variable the error message uses", "FOO-OR-LATER is cited as 'FOO-or-later'"),
 }
 
 def status(r):
